@@ -80,6 +80,12 @@ func runC03(r *simkit.Run) {
 		var rq []ref.QueuedTx
 		for i := 0; i < nid-1; i++ {
 			tx := gnosisTx{prefix: bytes.Repeat([]byte{byte(0x10 + c.Intn(3, "tx-prefix"))}, 32), sender: simtm.DetKey(fmt.Sprintf("user-%d", i)).Addr, gas: int64(21000 + 10000*c.Intn(3, "tx-gas"))}
+			if i > 0 && c.Chance(450, "tx-repeats-identity") {
+				// the same user submits a second transaction under the same prefix: the slot's
+				// identity list holds that identity twice (legal; nothing forbids reuse)
+				tx.prefix, tx.sender = txs[i-1].prefix, txs[i-1].sender
+				r.Probe("repeated-identity-in-queue")
+			}
 			txs = append(txs, tx)
 			rq = append(rq, ref.QueuedTx{Identity: tx.identity(), Gas: uint64(tx.gas)})
 		}
